@@ -16,18 +16,18 @@ PROPS = {
     },
     "C03": {
         "pkg": "core", "level": "exploration",
-        "quick": {"stages": [st("^TestStore", 1200), st("^TestOracleSelfTestAllowedAnswer", 1500, pkg="model")]},
-        "thorough": {"stages": [st("^TestStore", 15000, shards=16, timeout=3000)]},
+        "quick": {"stages": [st("^TestStoreC03C04C05", 1200), st("^TestStoreSoak", 12, shards=3), st("^TestOracleSelfTestAllowedAnswer", 1500, pkg="model")]},
+        "thorough": {"stages": [st("^TestStoreC03C04C05", 15000, shards=14, timeout=3000), st("^TestStoreSoak", 400, shards=8, timeout=3000)]},
     },
     "C04": {
         "pkg": "core", "level": "exploration",
-        "quick": {"stages": [st("^TestStore", 3000), st("^TestOracleSelfTestStoreRelation", 1500, pkg="model")]},
-        "thorough": {"stages": [st("^TestStore", 40000, shards=16, timeout=3000)]},
+        "quick": {"stages": [st("^TestStoreC03C04C05", 3000), st("^TestStoreSoak", 16, shards=4), st("^TestOracleSelfTestStoreRelation", 1500, pkg="model")]},
+        "thorough": {"stages": [st("^TestStoreC03C04C05", 40000, shards=14, timeout=3000), st("^TestStoreSoak", 600, shards=8, timeout=3000)]},
     },
     "C05": {
         "pkg": "core", "level": "exploration",
-        "quick": {"stages": [st("^TestStore", 3000)]},
-        "thorough": {"stages": [st("^TestStore", 40000, shards=16, timeout=3000)]},
+        "quick": {"stages": [st("^TestStoreC03C04C05", 3000), st("^TestStoreSoak", 16, shards=4)]},
+        "thorough": {"stages": [st("^TestStoreC03C04C05", 40000, shards=14, timeout=3000), st("^TestStoreSoak", 600, shards=8, timeout=3000)]},
     },
     "C17": {
         "pkg": "handlers", "level": "exploration",
